@@ -5,7 +5,7 @@ import os
 import sys
 from collections import defaultdict
 from .terms import (TRUE, FALSE, mk_not, mk_and, mk_or, mk_sel, mk_icmp, mk_fcmp, iconst, sym,
-                    subst_term, subterms, is_bool_term, CMP_SWAP, CMP_NEG_INT)
+                    subst_term, subterms, simp, is_bool_term, CMP_SWAP, CMP_NEG_INT)
 from .values import *
 from .facts import subst_ty, ty_str, ty_has_param, unify
 
@@ -599,43 +599,52 @@ class Interp:
 
     def subst_value(self, v, mapping):
         """substitute terms inside a value (mapping: term -> term)"""
+        return self._map_value(v, lambda t_: subst_term(t_, mapping))
+
+    def assume_value(self, v, asm):
+        """the value under the truth assignment asm (term -> bool) of some of its conditions"""
+        return self._map_value(v, lambda t_: simp(t_, asm) if isinstance(t_, tuple) else t_)
+
+    def _map_value(self, v, mapping):
         if isinstance(v, tuple):
-            return subst_term(v, mapping)
+            return mapping(v)
         if isinstance(v, Struct):
-            return Struct(v.path, tuple(self.subst_value(x, mapping) for x in v.fields), v.tyargs)
+            return Struct(v.path, tuple(self._map_value(x, mapping) for x in v.fields), v.tyargs)
         if isinstance(v, Tup):
-            return Tup(tuple(self.subst_value(x, mapping) for x in v.fields))
+            return Tup(tuple(self._map_value(x, mapping) for x in v.fields))
         if isinstance(v, Arr):
-            return Arr(tuple(self.subst_value(x, mapping) for x in v.elems))
+            return Arr(tuple(self._map_value(x, mapping) for x in v.elems))
         if isinstance(v, Opaque):
-            return Opaque(subst_term(v.term, mapping))
+            return Opaque(mapping(v.term))
         if isinstance(v, Enum):
-            return Enum(v.path, tuple((subst_term(g, mapping), var, tuple(self.subst_value(x, mapping) for x in f)) for g, var, f in v.alts))
+            alts = tuple((mapping(g), var, tuple(self._map_value(x, mapping) for x in f)) for g, var, f in v.alts)
+            live = tuple(a_ for a_ in alts if a_[0] != FALSE)
+            return Enum(v.path, live if live else alts)
         if isinstance(v, SelV):
-            return self.select(subst_term(v.cond, mapping), self.subst_value(v.a, mapping), self.subst_value(v.b, mapping))
+            return self.select(mapping(v.cond), self._map_value(v.a, mapping), self._map_value(v.b, mapping))
         if isinstance(v, SliceRef):
-            return SliceRef(v.root, self._subst_path(v.path, mapping), subst_term(v.start, mapping), subst_term(v.end, mapping), v.mut)
+            return SliceRef(v.root, self._subst_path(v.path, mapping), mapping(v.start), mapping(v.end), v.mut)
         if isinstance(v, Ref):
             return Ref(v.root, self._subst_path(v.path, mapping), v.mut)
         if isinstance(v, VecV):
-            return VecV(self.subst_value(v.seq, mapping))
+            return VecV(self._map_value(v.seq, mapping))
         if isinstance(v, SeqUpd):
-            return SeqUpd(self.subst_value(v.seq, mapping), subst_term(v.idx, mapping), self.subst_value(v.val, mapping))
+            return SeqUpd(self._map_value(v.seq, mapping), mapping(v.idx), self._map_value(v.val, mapping))
         if isinstance(v, SeqPush):
-            return SeqPush(self.subst_value(v.seq, mapping), self.subst_value(v.val, mapping))
+            return SeqPush(self._map_value(v.seq, mapping), self._map_value(v.val, mapping))
         if isinstance(v, SeqLit):
-            return SeqLit(tuple(self.subst_value(x, mapping) for x in v.elems))
+            return SeqLit(tuple(self._map_value(x, mapping) for x in v.elems))
         if isinstance(v, Closure):
-            return Closure(v.path, tuple(self.subst_value(x, mapping) for x in v.captures), v.subst)
+            return Closure(v.path, tuple(self._map_value(x, mapping) for x in v.captures), v.subst)
         if isinstance(v, Stream):
-            return Stream(v.kind, tuple(self.subst_value(x, mapping) if not isinstance(x, str) else x for x in v.parts))
+            return Stream(v.kind, tuple(self._map_value(x, mapping) if not isinstance(x, str) else x for x in v.parts))
         return v
 
     def _subst_path(self, path, mapping):
         out = []
         for st in path:
             if st[0] == 'e':
-                t2 = subst_term(st[1], mapping)
+                t2 = mapping(st[1])
                 out.append(('i', t2[1]) if t2[0] == 'ic' else ('e', t2))
             else:
                 out.append(st)
@@ -1645,6 +1654,13 @@ class Interp:
             for i, (x, y) in enumerate(zip(a.elems, b.elems)):
                 self.diff_leaves(x, y, path + (('i', i),), out)
             return
+        if isinstance(a, Enum) and isinstance(b, Enum) and a.path == b.path and len(a.alts) == 1 and len(b.alts) == 1 and \
+                a.alts[0][0] == TRUE and b.alts[0][0] == TRUE and a.alts[0][1] == b.alts[0][1] and len(a.alts[0][2]) == len(b.alts[0][2]):
+            # the same variant before and after: its payload fields are the leaves
+            w = a.alts[0][1]
+            for i, (x, y) in enumerate(zip(a.alts[0][2], b.alts[0][2])):
+                self.diff_leaves(x, y, path + (('d', w), ('f', i)), out)
+            return
         if isinstance(a, VecV) and isinstance(b, VecV):
             out.append((path + (('seq',),), a.seq, b.seq))
             return
@@ -1836,10 +1852,134 @@ class Interp:
         del self.events[marks[2]:]
         return None
 
-    def run_loop(self, frame, header, st0):
-        conc = self.try_concrete_loop(frame, header, st0)
-        if conc is not None:
-            return conc
+    def _guard_with(self, guard, g):
+        """the guard of the paths of a merged state that satisfy g: the merge's own disjunction of its paths is implied by
+        g and dropped, and a conjunction is spelled as its literals (the form the loop closers read)"""
+        from .rules.boollogic import implies
+        guard = tuple(guard)
+        while guard and guard[-1][1] is True and isinstance(guard[-1][0], tuple) and guard[-1][0][0] == 'or' and implies(g, guard[-1][0]) is True:
+            guard = guard[:-1]
+        lits = []
+
+        def flat(c):
+            if isinstance(c, tuple) and c and c[0] == 'and':
+                flat(c[1])
+                flat(c[2])
+            elif isinstance(c, tuple) and c and c[0] == 'not':
+                lits.append((c[1], False, None))
+            else:
+                lits.append((c, True, None))
+        flat(g)
+        return guard + tuple(l for l in lits if l not in guard)
+
+    def _asm_of(self, g):
+        asm = {}
+
+        def flat(c):
+            if isinstance(c, tuple) and c and c[0] == 'and':
+                flat(c[1])
+                flat(c[2])
+            elif isinstance(c, tuple) and c and c[0] == 'not':
+                asm[c[1]] = False
+            elif isinstance(c, tuple) and c:
+                asm[c] = True
+        flat(g)
+        return asm
+
+    def _restrict(self, s, g):
+        """the paths of (merged) state s on which g holds: guard extended, selects decided by g resolved"""
+        asm = self._asm_of(g)
+        store = {}
+        for r, v in s.store.items():
+            try:
+                nv = self.assume_value(v, asm)
+            except Unsupported:
+                nv = v
+            store[r] = nv if nv != v else v
+        return State(store, self._guard_with(s.guard, g), s.facts | fact_closure(g))
+
+    def _split_modes(self, frame, header, outs, mode):
+        """STATE-MACHINE LOOP (`loop { state = match state { … } }`): the loop is analysed one state (variant of the carried
+        enum) at a time.  Back edges that arrive in the state being analysed stay back edges; those that arrive in another
+        state leave this analysis through a pseudo-exit and are continued from the loop head in that state."""
+        root, path, v = mode
+        keep = []
+        for s in outs.get(header, []):
+            try:
+                val = self.read(s, root, path)
+            except Unsupported:
+                val = None
+            if not isinstance(val, Enum):
+                raise Unsupported('state-machine loop whose state is not an enum value on a back edge', (frame.f['path'], None))
+            for g, w, fields in val.alts:
+                if g == FALSE or self.cond_known(s, g) is False:
+                    continue
+                if g == TRUE:
+                    sw = s.copy()
+                else:
+                    sw = self._restrict(s, g)
+                self.write(sw, root, path, Enum(val.path, ((TRUE, w, tuple(self.assume_value(x_, self._asm_of(g)) for x_ in fields)),)))
+                if w == v:
+                    keep.append(sw)
+                else:
+                    outs[('mode', header, w, root, path)].append(sw)
+        if header in outs:
+            del outs[header]
+        if keep:
+            outs[header] = keep
+        return outs
+
+    def run_loop(self, frame, header, st0, mode=None):
+        if mode is None:
+            conc = self.try_concrete_loop(frame, header, st0)
+            if conc is not None:
+                return conc
+        res = self._run_loop(frame, header, st0, mode)
+        pend = [(t, ss) for t, ss in res.items() if isinstance(t, tuple) and t and t[0] == 'mode']
+        if not pend:
+            return res
+        stack = getattr(self, '_mode_stack', None)
+        if stack is None:
+            stack = self._mode_stack = []
+        # compiler temporaries that the loop body assigns as a whole are dead at the loop head: what the previous state's
+        # iteration left in them is not carried into the next state (a wrong guess reads as uninitialised and fails closed)
+        dead = set()
+        for b_ in frame.loop_blocks[header]:
+            blk_ = frame.blocks[b_]
+            for stt in blk_['stmts']:
+                if stt['s'] == 'assign' and not stt['place']['proj']:
+                    dead.add(stt['place']['local'])
+            d_ = blk_['term'].get('dest')
+            if d_ is not None and not d_['proj']:
+                dead.add(d_['local'])
+        dead = {n for n in dead if frame.body['locals'][n]['name'] is None}
+        for t, ss in pend:
+            del res[t]
+        for t, ss in pend:
+            key = (frame.id, header, t[2])
+            if key in stack or len(stack) > 12:
+                raise Unsupported('state-machine loop that returns to a state it has left', (frame.f['path'], frame.blocks[header]['term_span']['line']))
+            stack.append(key)
+            try:
+                for s in ss:
+                    # the merged pseudo-exit may hold several alternatives of the state again
+                    val = self.read(s, t[3], t[4])
+                    alts = val.alts if isinstance(val, Enum) else ()
+                    for g, w, fields in alts:
+                        if w != t[2] or g == FALSE or self.cond_known(s, g) is False:
+                            continue
+                        sw = s.copy() if g == TRUE else self._restrict(s, g)
+                        self.write(sw, t[3], t[4], Enum(val.path, ((TRUE, w, tuple(self.assume_value(x_, self._asm_of(g)) for x_ in fields)),)))
+                        for n_ in dead:
+                            sw.store.pop(('L', frame.id, n_), None)
+                        sub = self.run_loop(frame, header, sw, mode=(t[3], t[4], w))
+                        for t2, ss2 in sub.items():
+                            res.setdefault(t2, []).extend(ss2)
+            finally:
+                stack.pop()
+        return res
+
+    def _run_loop(self, frame, header, st0, mode=None):
         blocks = frame.loop_blocks[header]
         summ = LoopSummary()
         summ.fn = frame.f['path']
@@ -1862,6 +2002,8 @@ class Interp:
                 outs = self.run_blocks(frame, header, blocks, head.copy(), as_loop_body=True)
             finally:
                 self.loop_stack.pop()
+            if mode is not None:
+                outs = self._split_modes(frame, header, outs, mode)
             backs = outs.get(header, [])
             if not backs:
                 break
@@ -1894,6 +2036,12 @@ class Interp:
                 if isinstance(fv, tuple) and fv and fv[0] == 'HAVOC-UNSUPPORTED':
                     if root[0] == 'L' and root[1] == frame.id and self._temp_local(frame, root[2]):
                         continue
+                    if mode is None and isinstance(x, Enum) and len(x.alts) == 1 and x.alts[0][0] == TRUE and isinstance(y, Enum) and \
+                            x.path == y.path and self.facts.adts.get(x.path) is not None:
+                        # a carried enum of the crate that changes variant: a state machine — analyse it state by state
+                        del self.sites[sites_mark:]
+                        del self.loops[loops_mark:]
+                        return self._run_loop(frame, header, st0, mode=(root, p, x.alts[0][1]))
                     raise Unsupported('loop-carried value of kind %s at %s' % (type(fv[1]).__name__, nm),
                                       (frame.f['path'], summ.line))
                 carried[(root, p)] = (fv, x)
@@ -1939,11 +2087,20 @@ class Interp:
         for t, ss in exits.items():
             m = summ.exits[t]
             store = m.store
+            mg = m.guard
             if closed is not None and closed.get('exit') == t:
                 store = dict(store)
                 tmp = State(store, (), frozenset())
                 self.write(tmp, closed['root'], closed['path'], closed['value'])
-            res[t] = [State(store, st0.guard + m.guard, st0.facts | m.facts)]
+                if mode is not None:
+                    # the closed loop leaves only by exhaustion: the literal that says so speaks about the loop-head cursor,
+                    # which has no meaning after the loop (and would otherwise end up as the condition of a later join)
+                    heads = set()
+                    for _r, _p, fv_, _iv in summ.carried:
+                        if isinstance(fv_, tuple) and fv_ and fv_[0] == 'sym':
+                            heads.add(fv_)
+                    mg = tuple(l for l in mg if not (isinstance(l[0], tuple) and (set(subterms(l[0])) & heads)))
+            res[t] = [State(store, st0.guard + mg, st0.facts | m.facts)]
         return res
 
     def close_build_loop(self, frame, summ):
